@@ -89,6 +89,57 @@ pub fn atom(r: &mut Rng) -> Term {
     }
 }
 
+/// ANY value of the `Term` type, built with the raw variants (no constructor checks): placeholders as components,
+/// empty or one-element component lists, image indices anywhere up to the length, equal neighbours. For the
+/// properties that quantify over all terms (equality, hashing, accessors, mutators) — not for the round trips.
+pub fn wild_term(r: &mut Rng, d: usize) -> Term {
+    use Term::*;
+    if d == 0 || r.chance(1, 4) {
+        return if r.chance(1, 5) { Placeholder } else { atom(r) };
+    }
+    let kids = |r: &mut Rng| -> Vec<Term> {
+        let n = match r.below(6) { 0 => 0, 1 => 1, 5 => 5 + r.below(5), k => k };
+        let mut ks: Vec<Term> = (0..n).map(|_| wild_term(r, d - 1)).collect();
+        if !ks.is_empty() && r.chance(1, 4) {
+            let i = r.below(ks.len());
+            let dup = ks[i].clone();
+            ks.insert(i, dup);
+        }
+        ks
+    };
+    let bx = |r: &mut Rng| Box::new(wild_term(r, d - 1));
+    match r.below(29) {
+        0 => SetExtension(kids(r).into_iter().collect()),
+        1 => SetIntension(kids(r).into_iter().collect()),
+        2 => IntersectionExtension(kids(r).into_iter().collect()),
+        3 => IntersectionIntension(kids(r).into_iter().collect()),
+        4 => DifferenceExtension(bx(r), bx(r)),
+        5 => DifferenceIntension(bx(r), bx(r)),
+        6 => Product(kids(r)),
+        7 | 8 => { let v = kids(r); let i = r.below(v.len() + 1); ImageExtension(i, v) }
+        9 | 10 => { let v = kids(r); let i = r.below(v.len() + 1); ImageIntension(i, v) }
+        11 => Conjunction(kids(r).into_iter().collect()),
+        12 => Disjunction(kids(r).into_iter().collect()),
+        13 => Negation(bx(r)),
+        14 => ConjunctionSequential(kids(r)),
+        15 => ConjunctionParallel(kids(r).into_iter().collect()),
+        16 => Inheritance(bx(r), bx(r)),
+        17 => Similarity(bx(r), bx(r)),
+        18 => Implication(bx(r), bx(r)),
+        19 => Equivalence(bx(r), bx(r)),
+        20 => ImplicationPredictive(bx(r), bx(r)),
+        21 => ImplicationConcurrent(bx(r), bx(r)),
+        22 => ImplicationRetrospective(bx(r), bx(r)),
+        23 => EquivalencePredictive(bx(r), bx(r)),
+        24 => EquivalenceConcurrent(bx(r), bx(r)),
+        // the same components in a symmetric statement, both ways round, inside something hashed
+        25 => { let (a, b) = (wild_term(r, d - 1), wild_term(r, d - 1)); SetExtension([Similarity(Box::new(a.clone()), Box::new(b.clone())), Similarity(Box::new(b), Box::new(a))].into_iter().collect()) }
+        26 => Negation(Box::new(Negation(bx(r)))),
+        27 => Product(vec![Placeholder, wild_term(r, d - 1), Placeholder]),
+        _ => Interval(*r.pick(&[0usize, 1, usize::MAX, usize::MAX - 1, 1 << 31, 1 << 32])),
+    }
+}
+
 /// a well-formed term: every constructor, images placeholder-free with every index 0..=n
 pub fn term(r: &mut Rng, cfg: &TermCfg, d: usize) -> Term {
     if d == 0 || r.chance(1, 5) {
@@ -96,7 +147,7 @@ pub fn term(r: &mut Rng, cfg: &TermCfg, d: usize) -> Term {
     }
     let kids = |r: &mut Rng| -> Vec<Term> {
         // now and then a long component list (hash tables behave differently beyond a handful of entries)
-        let n = if r.chance(1, 15) { 5 + r.below(6) } else { 1 + r.below(cfg.max_arity) };
+        let n = if d <= 2 && r.chance(1, 15) { 5 + r.below(6) } else { 1 + r.below(cfg.max_arity) };
         let mut ks: Vec<Term> = (0..n).map(|_| term(r, cfg, d - 1)).collect();
         // a repeated component: unordered constructors drop it, ordered ones keep it
         if r.chance(1, 6) {
